@@ -1,8 +1,12 @@
 // C06: checked conversions and integer helpers equal their mathematical definition.
 // Oracle: __int128 arithmetic written from the property text, not from the implementation.
 #include <vf.hpp>
+#include <cstring>
 
 #include <fcppt/bit/mask.hpp>
+#include <fcppt/cast/size.hpp>
+#include <fcppt/cast/to_unsigned.hpp>
+#include <fcppt/cast/to_signed.hpp>
 #include <fcppt/bit/shifted_mask.hpp>
 #include <fcppt/bit/test.hpp>
 #include <fcppt/cast/truncation_check.hpp>
@@ -566,6 +570,35 @@ void bit_test_all()
       vals.push_back(static_cast<T>(v));
   else
     vals = lattice<T>();
+  // the sign-changing and widening casts the checked conversions are built from: bit pattern kept / value kept
+  if (vf::mine(vf::hash_str(e)) && vf::begin_case("cast::to_signed / to_unsigned / size over %zu values", vals.size()))
+  {
+    using S = std::make_signed_t<T>;
+    for (T v : vals)
+    {
+      vf::operands(static_cast<long long>(v));
+      vf::add_evals(3);
+      // (to_unsigned accepts signed sources only, to_signed unsigned ones)
+      if constexpr (std::is_signed_v<T>)
+      {
+        auto const u = fcppt::cast::to_unsigned(v);
+        static_assert(std::is_same_v<std::remove_cvref_t<decltype(u)>, U>);
+        if (std::memcmp(&u, &v, sizeof v) != 0)
+          bad("cast::to_unsigned<" + t + ">/bits", "to_unsigned", v, 0, s128(u), "same bit pattern");
+      }
+      else
+      {
+        auto const sg = fcppt::cast::to_signed(v);
+        static_assert(std::is_same_v<std::remove_cvref_t<decltype(sg)>, S>);
+        if (std::memcmp(&sg, &v, sizeof v) != 0)
+          bad("cast::to_signed<" + t + ">/bits", "to_signed", v, 0, s128(sg), "same bit pattern");
+      }
+      using W = std::conditional_t<std::is_signed_v<T>, long long, unsigned long long>;
+      if (static_cast<i128>(fcppt::cast::size<W>(v)) != static_cast<i128>(v))
+        bad("cast::size<" + t + ">/value", "size", v, 0, s128(fcppt::cast::size<W>(v)), s128(v));
+    }
+    VF_COUNT("cast/sign-and-size-casts");
+  }
   std::size_t idx = 0;
   for (T v : vals)
   {
